@@ -257,6 +257,17 @@ def _s22(s):
             op(None, None), op(None, None), lab(L), call('m', I(L), 1), call('m', I(L), 0), call('m', ('+', I(L), DW), 5), call('r', I(L)), op(None, I(L))]
 
 
+@skeleton('rep-zero-of-an-undefined-macro', 3, lambda s: True)
+def _s23(s):
+    P, It, L = s
+    # a rep whose count is 0 expands to nothing, so - like the inlined program, which has no statement there - it may name a macro, or an
+    # arity of a macro, that is not defined: at top level, inside a macro, with the count computed from a parameter
+    return [mdef('leaf', ['x'], body=[op(None, I('x'))]),
+            mdef('spread', ['n', P], body=[call('leaf', I(P)), rep(('-', I('n'), 1), It, 'leaf', ('+', I(P), I(It)), I(P))]),
+            mdef('opt', [P], body=[rep(0, It, 'nosuch', I(P), I(It)), op(None, I(P))]),
+            lab(L), rep(0, It, 'nosuch', I(L)), call('spread', 1, I(L)), call('opt', I(L)), op(None, I(L))]
+
+
 # skeletons whose programs raise no assembler warning for ANY assignment of the names (on the unchanged tree): they must also assemble
 # with warnings treated as errors, which is the default of the fj command and of the API
 WARNING_FREE = {'arity-overloading', 'dollar', 'globals-and-externs', 'guarded-recursion', 'iterator-like-own-parameter-used-later',
